@@ -4,6 +4,9 @@ MODULES = [
     'contracts.c16_integer',
     'contracts.c16_init',
     'contracts.c16_replay',
+    'contracts.shared_task',
+    'contracts.c05_queues',
+    'contracts.c05_replay',
 ]
 
 EXTRA_CHECKS = {}
